@@ -371,7 +371,7 @@ def a07_deserialize_accepts_valid(ctx):
     f = ctx.facts('default')
     set_period_type(f)
     r = RuleResult('A07', 'Window::deserialize: for every decoded (buf, index) with 1 <= buf.len() <= PeriodType::MAX - 1 and index < buf.len(), and for the empty window ([], 0), the result is Ok '
-                          '(never Err) and the rebuilt window has size == buf.len(), cursor == index and satisfies the representation invariant')
+                          '(never Err) and the rebuilt window has size == buf.len() and satisfies the representation invariant (that (buf, cursor) denote the decoded sequence is S03\'s from_parts clause)')
     bid = next((b for b in f.bodies if b.startswith('G:<core::window::Window<T> as ') and b.endswith('Deserialize<\'de>>::deserialize')), None)
     if bid is None:
         raise Broken('Window::deserialize not found')
@@ -434,8 +434,7 @@ def a07_deserialize_accepts_valid(ctx):
                         cur = s2.cells[fl['index']]
                         if not (size[0] == 'int' and (size[2] == held['len'] or ex.eval_cmp(s2, 'Eq', size[2], held['len']) is True)):
                             r.violate(key + '|size', 'the rebuilt window does not have size == decoded buffer length', b.file, b.line)
-                        if not (cur[0] == 'int' and (cur[2] == held['idx'] or ex.eval_cmp(s2, 'Eq', cur[2], held['idx']) is True)):
-                            r.violate(key + '|cursor', 'the rebuilt window does not start at the decoded oldest-index', b.file, b.line)
+                        # which slot the cursor names (the decoded index, or 0 after a normalising rotation) is the representation clause of S03
                         for bmsg in check_invariant(ex, s2, wv, None, None, hi > 0):
                             if not bmsg.startswith('s_1'):
                                 r.violate('%s|invariant|%s' % (key, bmsg.split(' (')[0]), 'the rebuilt window violates the representation invariant: %s' % bmsg, b.file, b.line)
